@@ -12,8 +12,8 @@ _NOTE = (
 CLAIMED = {
     "C03": {
         "engine": "E1 syncorder",
-        "technique": "static analysis: MIR must-complete-before / cannot-start-before ordering over the sync protocol (dominance in the Ok-pruned CFG + spawn/join strand model)",
-        "text": "Decides the commit-protocol ordering skeleton for every path: every pre-meta write (wal, ln, bbn) is complete and result-checked before Meta::write; hash-table writes, WAL truncation and rollback-log pruning start only after it; WAL redo is gated by sequence-number equality and the WAL carries the same sequence number as the meta page. That is the part of crash atomicity visible in the shape of the code; data-level recovery correctness is not decided.",
+        "technique": "static analysis: MIR must-complete-before / cannot-start-before ordering over the sync protocol (dominance in the Ok-pruned CFG + spawn/join strand model); provenance of written page numbers (copy-on-write)",
+        "text": "Decides the commit-protocol ordering skeleton for every path: every pre-meta write (wal, ln, bbn) is complete and result-checked before Meta::write; hash-table writes, WAL truncation and rollback-log pruning start only after it; WAL redo is gated by sequence-number equality and the WAL carries the same sequence number as the meta page; ln/bbn/free-list page writers obtain page numbers only from the allocator (no page of the previous committed state is overwritten before the switch-over) and the value files are resized at one site. That is the part of crash atomicity visible in the shape of the code; data-level recovery correctness is not decided.",
         "design_ref": "DESIGN.md 4 (E1), 5 (C03)",
         "note": _NOTE,
     },
@@ -26,22 +26,22 @@ CLAIMED = {
     },
     "C08": {
         "engine": "E6 vguard + E8 witness",
-        "technique": "static analysis: who-may-construct + dominance of acceptance by the root comparison; scope-predicate dependence of confirm_*; error-variant raise-site inventory; compile-fail witnesses",
-        "text": "Thin structural claim: Verified* objects are constructible only behind the root-equality check, every confirm_* result depends on a scope predicate, and every documented rejection reason has a raising site on the verifier's path. Does not decide that the comparisons are the right ones nor hashing correctness.",
+        "technique": "static analysis: who-may-construct + dominance of acceptance by the root comparison; scope-predicate dependence of confirm_*; error-variant raise-site inventory; iterator-provenance of the loops that raise scope/order errors (whole input collection); whole-leaf comparison in confirm_value*; compile-fail witnesses",
+        "text": "Thin structural claim: Verified* objects are constructible only behind the root-equality check, every confirm_* result depends on a scope predicate, every documented rejection reason has a raising site on the verifier's path, the loops raising scope/order errors iterate the whole input collection (no skip/take/chunks), and confirm_value* compares the whole leaf (key path and value hash). Does not decide that the comparisons are the right ones nor hashing correctness.",
         "design_ref": "DESIGN.md 4 (E6, E8), 5 (C08)",
         "note": _NOTE,
     },
     "C09": {
         "engine": "E3 guardfx (+E1 order)",
-        "technique": "static analysis: guard-dominates-effect over MIR CFG, constant-store dataflow on SessionParams, post-meta ordering of log pruning, who-may-mutate ownership of the in-memory log",
-        "text": "Three clauses: an unservable rollback returns before any mutation; the rollback's own commit never records a delta nor takes the global guard; log pruning/truncation happens only after the meta switch-over; the in-memory log is mutated only by one-record push/pop operations of its owner type, each reachable only from its listed owners. Restored values are not decided.",
+        "technique": "static analysis: guard-dominates-effect over MIR CFG, constant-store dataflow on SessionParams, post-meta ordering of log pruning, set/consume pairing of the pending truncation, who-may-mutate ownership of the in-memory log, overlay-hit-is-final branch rule",
+        "text": "Three clauses: an unservable rollback returns before any mutation; the rollback's own commit never records a delta nor takes the global guard; log pruning/truncation happens only after the meta switch-over and the pending truncation is consumed where it is applied; the in-memory log is mutated only by one-record push/pop operations of its owner type, each reachable only from its listed owners. Restored values are not decided.",
         "design_ref": "DESIGN.md 4 (E3), 5 (C09)",
         "note": _NOTE,
     },
     "C11": {
-        "engine": "E3 guardfx",
-        "technique": "static analysis: guard-dominates-effect over MIR CFG of the overlay commit entry points; finite-domain evaluation (MIR interpretation over the three status values) of the chain-completeness predicate; who-may-store on the status word",
-        "text": "Refusal clause only: committing an overlay is gated by the parent-marker, lock and previous-root checks before any effect, including the committed-status flip that descendants consult; LiveOverlay::new refuses a chain exactly when the oldest supplied ancestor's parent is not COMMITTED (decided by enumerating the status domain); the status word only moves LIVE->DROPPED or ->COMMITTED. Overlay/commit behavioural equivalence is not decided.",
+        "engine": "E3 guardfx (+ statusdom, shadow, mergefront)",
+        "technique": "static analysis: guard-dominates-effect over MIR CFG of the overlay commit entry points; finite-domain evaluation (MIR interpretation over the three status values) of the chain-completeness predicate; who-may-store on the status word; overlay-hit-is-final branch rule; forward frontier dataflow (value numbering over MIR) for the completeness of the stored-leaves/overlay merge",
+        "text": "Refusal clause and three structural clauses of the read path: committing an overlay is gated by the parent-marker, lock and previous-root checks before any effect, including the committed-status flip that descendants consult; LiveOverlay::new refuses a chain exactly when the oldest supplied ancestor's parent is not COMMITTED (decided by enumerating the status domain); the status word only moves LIVE->DROPPED or ->COMMITTED; where the overlay chain is consulted a hit (including a delete) is final; the elided-subtree reconstruction copies or supersedes every stored leaf on every path. Overlay/commit behavioural equivalence is not decided.",
         "design_ref": "DESIGN.md 4 (E3), 5 (C11)",
         "note": _NOTE,
     },
@@ -82,9 +82,9 @@ CLAIMED = {
     },
     "C19": {
         "engine": "E9 reclaim",
-        "technique": "static analysis: counter/state-change pairing by dominance inside the sync loop, who-may-write on the occupancy counter, initialisation order w.r.t. recovery, dataflow of freed page lists from the update stages to the free list of the same store, reuse-before-growth dominance",
-        "text": "Structure only: the reported hash-table occupancy is a counter that follows every bucket state change of a sync (set_full / set_tombstone paired with +1 / -1), is initialised from the occupancy map after recovery and is written nowhere else; the pages each update stage frees (replaced pages and the tracker's extra_freed) are handed to the finisher of the same value file, to FreeList::commit and to the free-list encoder; the allocator consults the free list before growing. Whether every page is accounted for and the count is right is not decided.",
-        "design_ref": "DESIGN.md 10.2 (U1-U3)",
+        "technique": "static analysis: counter/state-change pairing by dominance inside the sync loop, who-may-write on the occupancy counter, initialisation order w.r.t. recovery, dataflow of freed page lists from the update stages to the free list of the same store, reuse-before-growth dominance, must-pass-through chain for the release of replaced overflow cells",
+        "text": "Structure only: the reported hash-table occupancy is a counter that follows every bucket state change of a sync (set_full / set_tombstone paired with +1 / -1), is initialised from the occupancy map after recovery and is written nowhere else; the pages each update stage frees (replaced pages and the tracker's extra_freed) are handed to the finisher of the same value file, to FreeList::commit and to the free-list encoder; the allocator consults the free list before growing; a replaced or deleted overflow value is reported on every path of LeafUpdater::keep_up_to and flows through the leaf stage into overflow::delete and freed_pages. Whether every page is accounted for and the count is right is not decided.",
+        "design_ref": "DESIGN.md 10.2 (U1-U4)",
         "note": _NOTE,
     },
     "C20": {
@@ -116,7 +116,8 @@ ENGINES = [
     {"name": "E4 lockgraph", "path": "rules/lockgraph.py", "serves_properties": ["C15"], "kind_free_text": "lock-order graph and access-lock rules"},
     {"name": "E5 panicfree", "path": "rules/panicfree.py", "serves_properties": ["C18"], "kind_free_text": "panic-site inventory with guard/invariant discharge"},
     {"name": "E5-T termination", "path": "rules/termination.py", "serves_properties": ["C18"], "kind_free_text": "loop classification (finite iterator types, counter / pop structure), recursion measure"},
-    {"name": "E9 reclaim", "path": "rules/reclaim.py", "serves_properties": ["C19"], "kind_free_text": "occupancy counter pairing / ownership, freed-page flow to the free list, reuse before growth"},
+    {"name": "E9 reclaim", "path": "rules/reclaim.py", "serves_properties": ["C19"], "kind_free_text": "occupancy counter pairing / ownership, freed-page flow to the free list, reuse before growth, overflow-cell release chain"},
+    {"name": "E10 mergefront / shadow", "path": "rules/mergefront.py", "serves_properties": ["C11", "C09"], "kind_free_text": "frontier dataflow for the stored-leaves/overlay merge of the elided-subtree reconstruction (mergefront.py); overlay hit is final (shadow.py)"},
     {"name": "E6 vguard", "path": "rules/vguard.py", "serves_properties": ["C08"], "kind_free_text": "acceptance gated by checks"},
     {"name": "E7 dirlock", "path": "rules/dirlock.py", "serves_properties": ["C20"], "kind_free_text": "lock-before-touch dominance, flag constants, lifetime"},
     {"name": "E8 witness", "path": "witness/", "serves_properties": ["C08", "C12", "C15"], "kind_free_text": "compile_fail doctests with compiling twins (cargo +nightly test --doc)"},
